@@ -177,13 +177,7 @@ impl<'a> Evaluator<'a> {
                 match self.evaluate_expression_factor(factor, track_usage)? {
                     Some(value) => match value {
                         SymbolData::Number(mut number) => {
-                            if flags.contains(ExpressionFactorFlags::NOT) {
-                                if number == 0 {
-                                    number = 1
-                                } else {
-                                    number = 0
-                                }
-                            }
+                            // (written as '!-x': the negation is the innermost of the two)
                             if flags.contains(ExpressionFactorFlags::NEG) {
                                 number = match number.checked_neg() {
                                     Some(number) => number,
@@ -194,6 +188,13 @@ impl<'a> Evaluator<'a> {
                                         )
                                     }
                                 };
+                            }
+                            if flags.contains(ExpressionFactorFlags::NOT) {
+                                if number == 0 {
+                                    number = 1
+                                } else {
+                                    number = 0
+                                }
                             }
                             Ok(Some(number.into()))
                         }
